@@ -71,6 +71,18 @@ def _run_one(args):
                  if e.get('status') == 'known'}
         fired_new = sorted({o['rule'] for o in ck.obligations if not o['ok']
                             and (o['rule'], o['construct']) not in known})
+        cross = []
+        if var.get('_cross') and var['kind'] == 'equivalent':
+            # an equivalent variant must leave EVERY property's check silent
+            from sa.main import PROPS
+            for p in PROPS:
+                if p == var['prop']:
+                    continue
+                with contextlib.redirect_stdout(io.StringIO()):
+                    c2, ck2 = run_property(p, 'quick', tmp, 0, quiet=True)
+                if c2 != 0:
+                    cross.append((p, c2, [f"{o['rule']} {o['construct']}" for o in ck2.obligations
+                                          if not o['ok']][:2] + [f"{r}: {w}" for r, w in ck2.analysis_errors][:2]))
         res = {'id': var['id'], 'prop': var['prop'], 'kind': var['kind'], 'code': code,
                'fired': fired_new, 'errors': [f"{r}: {w}" for r, w in ck.analysis_errors],
                'wall': round(time.time() - t0, 2)}
@@ -82,12 +94,12 @@ def _run_one(args):
                 res['why'] = (f"expected exit 1 with rule {want}, got exit {code}, "
                               f"fired={fired_new}, errors={res['errors'][:2]}")
         else:
-            ok = code == 0
+            ok = code == 0 and not cross
             res['status'] = 'ok' if ok else 'FALSE-ALARM'
             if not ok:
                 msgs = [f"{o['rule']} {o['construct']}: {o['msg']}" for o in ck.obligations
                         if not o['ok']][:3]
-                res['why'] = f"expected exit 0, got exit {code}: {msgs} {res['errors'][:2]}"
+                res['why'] = f"expected exit 0, got exit {code}: {msgs} {res['errors'][:2]} cross={cross}"
         return res
     except Exception as err:     # pylint: disable=broad-except
         return {'id': var['id'], 'prop': var['prop'], 'status': 'CRASH',
@@ -168,6 +180,8 @@ def main(which: str, repo: str, jobs: int) -> int:
     if which != 'all':
         vs = [v for v in vs if v['prop'] == which or v['id'] == which]
     t0 = time.time()
+    if which == 'all':
+        vs = [dict(v, _cross=True) for v in vs]
     results = run_variants(vs, repo, jobs)
     s = summarise(results)
     for r in results:
